@@ -66,7 +66,7 @@ pub fn run(c: &SchedCase) -> ExecOutcome {
     }
     let mut o = ExecOutcome::default();
     let mut rng = Rng::derive(c.seed, c.case, 5);
-    let drop_early = c.variant % 4 == 3;
+    let drop_early = c.variant % 4 == 3 && !c.no_drop_race;
     let mut el: EventLoop<u64> = EventLoop::try_new().expect("loop");
     let h = el.handle();
     let (ex, sched) = executor::<u64>().expect("executor");
